@@ -26,7 +26,7 @@ fn main() {
     }
     let code = match args.id.as_str() {
         "C18" => {
-            let mut r = Report::new("C18", &args.tier, "model_checking");
+            let mut r = Report::new("C18", &args.tier, "exploration");
             c18::run(&mut r, &args.tier);
             r.finish()
         }
